@@ -70,3 +70,33 @@ Fixpoint at_depth (d : nat) (t : dtree) : list dtree :=
   | 0 => [t]
   | S d' => match t with DNode _ _ kids => flat_map (at_depth d') kids end
   end.
+
+(* ------------------------------------------------------------------ namespaces in scope for an element processed on its own
+   A chunk of a lazy resource, or an element selected by a path, is validated without its ancestors being traversed
+   (schemas.py iter_errors / iter_decode, after repo fix 78d8359): the namespace map is the root's, updated with the
+   declarations of the ancestors below the root and with the element's own. *)
+Definition d_decls (t : dtree) : list (N * N) := match t with DNode _ d _ => d end.
+Definition d_kids (t : dtree) : list dtree := match t with DNode _ _ k => k end.
+
+Fixpoint decls_along (t : dtree) (a : list nat) : list (list (N * N)) :=
+  match a with
+  | [] => []
+  | i :: r => match nth_error (d_kids t) i with Some c => d_decls c :: decls_along c r | None => [] end
+  end.
+Definition scope_chunk (t : dtree) (a : list nat) : nsmap :=
+  fold_left ns_update (decls_along t a) (ns_update [] (d_decls t)).
+
+(* what the fully loaded tree reports for the node at address a *)
+Fixpoint scope_at (inherited : nsmap) (t : dtree) (a : list nat) : option nsmap :=
+  let m := ns_update inherited (d_decls t) in
+  match a with
+  | [] => Some m
+  | i :: r => match nth_error (d_kids t) i with Some c => scope_at m c r | None => None end
+  end.
+
+(* before the fix: the declarations of the root and the element's own only *)
+Definition scope_chunk_old (t : dtree) (a : list nat) : nsmap :=
+  ns_update (ns_update [] (d_decls t)) (last (decls_along t a) []).
+
+Fixpoint ns_get (m : nsmap) (p : N) : option N :=
+  match m with [] => None | (p', u) :: r => if N.eqb p p' then Some u else ns_get r p end.
